@@ -312,6 +312,14 @@ Proof.
   - simpl in H. discriminate.
 Qed.
 
+Lemma v_dest_out n d : dest_at g n = Some d -> out_links g n = [].
+Proof.
+  intros Ho. pose proof (dict_get_In _ _ _ (v_dest_dict _ _ Ho)) as Hd.
+  destruct valid_parts as (_ & _ & _ & H4). pose proof (flat_map_nil _ _ _ H4 Hd) as H.
+  unfold dest_msgs in H. apply app_eq_nil in H. destruct H as [_ H].
+  destruct (out_links g n); [reflexivity|simpl in H; discriminate].
+Qed.
+
 Lemma v_src e : In e (g_edges g) -> origin_at g (e_up e) = None -> in_links g (e_up e) <> [].
 Proof.
   intros He Ho Hin. destruct WFG as [Hnd Hends]. destruct (Hends e He) as [Hu _].
@@ -337,6 +345,7 @@ Proof.
   - exact v_dest_dict.
   - exact v_orig_out.
   - exact v_dest_in.
+  - exact v_dest_out.
   - exact v_src.
   - exact v_sink.
 Qed.
